@@ -240,6 +240,7 @@ func (c *LocalActionsCache) FindMetadata(spec string) (*ActionMetadata, bool, er
 
 	var meta ActionMetadata
 	if err := yaml.Unmarshal(b, &meta); err != nil {
+		verifPoint("actioncache.write.invalid", spec)
 		c.writeCache(spec, nil) // Remember action was invalid
 		msg := strings.ReplaceAll(err.Error(), "\n", " ")
 		return nil, false, fmt.Errorf("could not parse action metadata in %q: %s", dir, msg)
@@ -248,6 +249,7 @@ func (c *LocalActionsCache) FindMetadata(spec string) (*ActionMetadata, bool, er
 	meta.dir = dir
 
 	c.debug("New metadata parsed from action %s: %v", dir, &meta)
+	verifPoint("actioncache.write", spec)
 	c.writeCache(spec, &meta)
 	return &meta, false, nil
 }
